@@ -340,7 +340,7 @@ func TestCheck(t *testing.T) {
 	ev = drv.NewEvidence("C09", "exploration", rule)
 	nProg := 12
 	if drv.Thorough() {
-		nProg = 300
+		nProg = 120
 	}
 	progs := make([]program, nProg)
 	for i := range progs {
